@@ -167,6 +167,9 @@ fn run_typed<T: Val>(ctx: &mut Ctx, p: &Program) -> Result<(), Violation> {
     let slot = |h: u64| (h % size as u64) as usize;
     let mut touched: Vec<u64> = vec![];
     let (mut overwrites, mut refused) = (0, 0);
+    // longest run of consecutive refused conditional writes to one slot (no write in between)
+    let mut runs: std::collections::HashMap<usize, u32> = std::collections::HashMap::new();
+    let mut longest_run = 0u32;
     for (i, op) in p.ops.iter().enumerate() {
         match *op {
             Op::Add(h, v) => {
@@ -176,6 +179,7 @@ fn run_typed<T: Val>(ctx: &mut Ctx, p: &Program) -> Result<(), Violation> {
                 }
                 table.add(h, T::of(v));
                 model[s] = (h, T::of(v));
+                runs.remove(&s);
                 touched.push(h);
             }
             Op::ReplaceIf(h, v, k, a) => {
@@ -199,8 +203,12 @@ fn run_typed<T: Val>(ctx: &mut Ctx, p: &Program) -> Result<(), Violation> {
                         overwrites += 1;
                     }
                     model[s] = (h, T::of(v));
+                    runs.remove(&s);
                 } else {
                     refused += 1;
+                    let r = runs.entry(s).or_insert(0);
+                    *r += 1;
+                    longest_run = longest_run.max(*r);
                 }
                 touched.push(h);
             }
@@ -239,6 +247,9 @@ fn run_typed<T: Val>(ctx: &mut Ctx, p: &Program) -> Result<(), Violation> {
     }
     if refused > 0 {
         ctx.class("program:refused-replace_if");
+    }
+    if longest_run >= 16 {
+        ctx.class(if longest_run >= 64 { "program:>=64-consecutive-refusals-on-one-slot" } else { "program:16-63-consecutive-refusals-on-one-slot" });
     }
     if overwrites > 0 && refused > 0 {
         ctx.nontrivial(fp(&format!("{:?}", p)));
@@ -308,13 +319,30 @@ pub fn program_strategy(max_log2: u8, max_ops: usize) -> impl Strategy<Value = P
     // allocate twice per program and get one program in sixteen
     let small = max_log2.min(10);
     let log2s = prop_oneof![15 => 0u8..=small, 1 => small..=max_log2];
-    (log2s, 0u8..5, prop_oneof![Just(0u32), any::<u32>()], proptest::collection::vec(op, 0..max_ops)).prop_map(|(log2, ty, default, raw)| {
+    (log2s, 0u8..5, prop_oneof![Just(0u32), any::<u32>()], proptest::collection::vec(op, 0..max_ops), 0u8..8).prop_map(|(log2, ty, default, raw, temper)| {
         let size = 1u64 << log2;
+        // the temper of a program: an even mix of operations (half of the programs), or long runs
+        // of one kind on one or two slots - conditional writes that are mostly refused, probes, or
+        // unconditional writes - as a search that keeps hitting the same entry produces them
+        let pool = match temper {
+            4 | 5 => 1 + (default as u64 % 2),
+            6 | 7 => 2,
+            _ => 4,
+        };
         // a small pool of slots so that collisions are the norm
         let ops = raw
             .into_iter()
             .map(|(kind, r, mode, v, pk, pa)| {
-                let slot = r % size.min(4);
+                let slot = r % size.min(pool);
+                let roll = (r >> 40) % 8;
+                let kind = match temper {
+                    4 | 5 if roll != 0 => 1,
+                    6 if roll > 1 => 2,
+                    7 if roll > 1 => 0,
+                    _ => kind,
+                };
+                // in the conditional-write temper most predicates refuse
+                let pk = if matches!(temper, 4 | 5) && roll > 2 && pk % 16 != 15 { [3u8, 1, 3, 0][(pk % 4) as usize] } else { pk };
                 let h = match mode {
                     0 => slot,
                     1 => slot | (r >> 8) << log2,
@@ -426,7 +454,7 @@ pub fn run(cfg: &Cfg) -> i32 {
     engine::finish(
         report,
         EvidenceSpec {
-            rule: "cases = programs of 0-400 add / replace_if / get operations over tables of size 2^0..2^16 (2^20 thorough) with entry types u8, u32, a Copy struct, a struct whose == / ordering look at one field only, and f64 (-0.0 and two NaN bit patterns among the values): values are compared bit for bit; hashes are drawn to collide (same slot with different high bits, multiples of the size, bits above 32 or bit 63 only, 0, u64::MAX) and predicates (old<arg, old==arg, true, false) over a small value domain; after every operation and in a final scan of all touched hashes, stored hashes and slot probes, get() is compared with a vector model (slot = hash mod size, initial content (0, default)); plus a few tables of 2^21 and 2^22 entries driven with hashes that agree in their low 8-22 bits against a sparse model; plus CacheTable::new on 90+ non-power-of-two sizes (must panic) and on 2^0..2^20 (must not). evaluations = programs + sizes. Non-trivial = program with at least one collision overwrite and one refused replace_if; distinct = program fingerprints.".into(),
+            rule: "cases = programs of 0-400 add / replace_if / get operations over tables of size 2^0..2^16 (2^20 thorough) with entry types u8, u32, a Copy struct, a struct whose == / ordering look at one field only, and f64 (-0.0 and two NaN bit patterns among the values): values are compared bit for bit; hashes are drawn to collide (same slot with different high bits, multiples of the size, bits above 32 or bit 63 only, 0, u64::MAX) and predicates (old<arg, old==arg, true, false) over a small value domain; half of the programs mix the operations evenly, the others are long runs of mostly refused conditional writes, of probes or of unconditional writes on one or two slots; after every operation and in a final scan of all touched hashes, stored hashes and slot probes, get() is compared with a vector model (slot = hash mod size, initial content (0, default)); plus a few tables of 2^21 and 2^22 entries driven with hashes that agree in their low 8-22 bits against a sparse model; plus CacheTable::new on 90+ non-power-of-two sizes (must panic) and on 2^0..2^20 (must not). evaluations = programs + sizes. Non-trivial = program with at least one collision overwrite and one refused replace_if; distinct = program fingerprints.".into(),
             assumptions: vec!["out-of-bounds accesses are observed through the unsafe-precondition checks of get_unchecked in the `checked` profile (abort -> fatal-signal handler -> violation) and through the libFuzzer+ASan target cache_prog in the thorough tier".into()],
             trusted_base: vec!["harness/src/props/c19.rs vector model".into(), "proptest 1.11".into()],
             exhaustive: None,
